@@ -19,6 +19,8 @@ HARNESSES = [
     dict(name="oob", src="props/oob.cpp", variant="plain"),
     dict(name="sampling", src="props/sampling.cpp", variant="plain"),
     dict(name="opaque", src="props/opaque.cpp", variant="plain"),
+    dict(name="gradients", src="props/gradients.cpp", variant="plain"),
+    dict(name="gradients_asan", src="props/gradients.cpp", variant="asan"),
     dict(name="oob_asan", src="props/oob.cpp", variant="asan"),
     dict(name="fz_oob", src="props/oob.cpp", variant="asan", kind="fuzz", cflags=["-DVF_FUZZ", '-DVF_FUZZ_PROP="oob"']),
     dict(name="traps_asan", src="props/traps.cpp", variant="asan"),
@@ -318,4 +320,29 @@ CHECKS["C09"] = dict(
                  "solid vs uniform-image presentations are not compared when the uniform image goes through an interpolating/convolving fetch in floating point",
                  "HSL operators with a component-alpha mask are defined as DST and are not a presentation of 'no mask'",
                  "565 destinations are compared with 565 destinations only"],
+)
+
+CHECKS["C13"] = dict(
+    level="exploration",
+    rule=("(gradient) rapidcheck: 1-8 stops with non-decreasing positions in [0,1] incl. repeated positions and gaps at both ends; "
+          "linear (incl. horizontal/vertical axes), radial (concentric, nested, disjoint, r=0, equal radii) and conical gradients "
+          "(any angle, centre on a pixel centre); four repeats; identity / scale / affine / projective transforms; a8r8g8b8 and "
+          "rgba_float destinations; rows of 1-40 pixels. Oracle: t from the geometry in long double at the pixel centre and at "
+          "positions a few 1/65536 away (scaled by the projective conditioning), colour = repeat applied to t, two neighbouring "
+          "stops interpolated in non-premultiplied space, premultiplied; every channel must lie within 1 step of the range of the "
+          "reference over the admissible t interval (endpoints, interior samples, both sides of every stop image); no admissible "
+          "t => transparent. Skipped and counted: pixels where admissibility flips or t moves > 0.02 within the position "
+          "uncertainty, REPEAT_NONE between 0/1 and the first/last stop (only one neighbouring stop), degenerate linear axes, "
+          "requests the library drops (C04). (gradsafe) arbitrary stop lists (unsorted, out of range, INT32 limits), degenerate "
+          "geometry, singular transforms under ASan with a per-case watchdog. Non-trivial = a checked row crosses a stop image or a "
+          "repeat seam."),
+    jobs=[
+        dict(harness="gradients", prop="gradient", cases=T(30000, 500000), procs=T(8, 12)),
+        dict(harness="gradients_asan", prop="gradsafe", cases=T(15000, 300000), procs=T(3, 4), args=["--watchdog", "20"]),
+        dict(harness="gradients", prop="gradient", cases=T(15000, 200000), procs=T(1, 2), env={"PIXMAN_DISABLE": "fast sse2 ssse3 mmx"}, tag="gradient_general"),
+    ],
+    floor=T(200000, 3000000), nt_floor=T(50000, 800000),
+    assumptions=["orientation conventions (conical: t = 1 - (atan2(dy,dx) + angle)/2pi) are taken from the library's documentation comments",
+                 "a relative error of 2e-5 in t is allowed on top of the position uncertainty (t is carried in 16.16 and evaluated in single precision)",
+                 "under REPEAT_NONE, t inside [0,1] but before the first / after the last stop is not asserted (the statement names two neighbouring stops; there is only one)"],
 )
